@@ -146,4 +146,17 @@ PROPS = {
             {"name": "replay", "pkg": "c11", "run": "^TestC11$", "shards": {"quick": 4, "thorough": 16}, "timeout": {"quick": 400, "thorough": 3000}},
         ],
     },
+    "C13": {
+        "level": "fault_enumeration",
+        "level_text": "Enumerated completely for the tier's bound: every fail/succeed bit pattern of appends over runs of 1..6 (quick) / 1..9 (thorough) publishes - including failure on the first publish of a fresh bus and runs of consecutive failures - with an unencodable event of each of six kinds (chan / NaN in an interface-typed field of an otherwise encodable type, chan field, func field, failing MarshalJSON, cyclic pointer) at every position, error handler set by option / by setter / unset, 0 / 1 / 3 handlers (sync, async, context-aware+sequential). Per publish: no panic, every handler got the event, exactly one error-handler call with the event and its reflect.Type on failure and none on success, exactly one append attempt for encodable events and none otherwise, the underlying store unchanged by failures; finally the log equals the successful publishes in order with increasing offsets. Timeouts: a grid of store delay x persistence timeout x publish-context deadline x (store honours / ignores the context) x publish sequence under virtual time: a publish is reported failed exactly once iff its record never reaches the log, attempts = publishes, log order = publish order.",
+        "level_note": "The store wrapper decides failures by append index and records what reached the real MemoryStore. Timeouts use testing/synctest virtual time; the bus does not itself enforce the timeout on a store that ignores its context, so the oracle relates reports to log contents rather than prescribing who times out.",
+        "technique": "runtime monitoring with fault injection: enumerated append-failure patterns through a store wrapper + virtual-time timeout grid, per-publish assertions on handler / error-handler / store observations",
+        "design_ref": "DESIGN.md section 5 C13",
+        "rule": "all bit patterns x unencodable kind/position x configuration variant; timeout grid; distinct = (pattern, error-handler mode, handlers) / the grid point; non-trivial = a success after >=1 failure or >=2 consecutive failures / a timeout or deadline shorter than the store delay in a multi-publish sequence",
+        "assumptions": ["testing/synctest virtual time (Go 1.25) for the timeout grid"],
+        "parts": [
+            {"name": "patterns", "pkg": "c13", "run": "^TestC13Patterns$", "shards": {"quick": 4, "thorough": 16}, "timeout": {"quick": 300, "thorough": 1500}},
+            {"name": "timeouts", "pkg": "c13", "run": "^TestC13Timeouts$", "shards": {"quick": 2, "thorough": 4}, "timeout": {"quick": 300, "thorough": 900}},
+        ],
+    },
 }
